@@ -539,8 +539,10 @@ fn scenario(r: &mut Report, seed: u64, k: u64) {
 fn busy_heartbeat_scenario(r: &mut Report, seed: u64, k: u64) {
     let mut rng = Rng::derive(seed, 0x12c0_0000 + k);
     let poll: Option<Duration> = *rng.pick(&[None, Some(Duration::from_millis(1)), Some(Duration::from_millis(10))]);
-    let (interval_ms, timeout_ms) = (50u64, 300u64);
-    let nmsgs = 900usize;
+    // generous timeout: a harness client that is descheduled for a few hundred milliseconds on a loaded machine must not
+    // look unresponsive
+    let (interval_ms, timeout_ms) = (100u64, 1000u64);
+    let nmsgs = 2400usize;
     let replay = vec!["c12".to_string(), "--seed".into(), seed.to_string(), "--busy".into(), k.to_string()];
     let port = hvcommon::net::free_port("127.0.0.1");
     let addr: SocketAddr = format!("127.0.0.1:{}", port).parse().unwrap();
@@ -854,5 +856,5 @@ pub fn main(args: &Args) {
         total.nontrivial(1);
         total.nontrivial(2);
     }
-    total.write(out, "scenarios of 1..8 reference clients against AsyncWebsocketApp::new_unlinked_with_config linked to a real App through async_websocket_handler: handler pools of 1 (every other scenario) or 2..8 threads, poll interval none / 1 ms / 10 ms, heartbeat off or (100 ms, 1.5 s); each client runs a random script over {text/binary messages in 1..4 fragments with pings interleaved, several per poll interval, ping, pauses <= 5 ms}, a quarter leave early with Close, with heartbeat a quarter disconnect abruptly; messages marked U trigger a unicast reply from the handler, B a broadcast; every connect handler broadcasts a join notice, an external AsyncSender broadcasts concurrently; half of the fragmented messages are sent fragment by fragment with pauses, a third of the others with every frame cut in two writes (anywhere in header, key or payload) 0.8-3.3 ms apart; seeded delays at the three poll-loop failpoints; ends with shutdown of both apps; plus bulk scenarios: a client requests a 6..16 MiB unicast and does not read for 0.3..1 s (more than the kernel buffers), then must receive it intact followed by a small unicast and a broadcast, which an idle second client must receive too; and busy-heartbeat scenarios: heartbeat 50 ms / timeout 300 ms, one client sending a message every millisecond for ~1 s while answering every ping: it must stay connected and all 900 messages must be dispatched in order. distinct = distinct scenarios; every scenario is non-trivial (all events of all clients are judged)", None, &["order is asserted only with a single handler thread (with more, handler entry order may legitimately differ from dispatch order)", "a broadcast must reach a client exactly once if that client's Connect was logged before the broadcast was submitted and it stayed until the final barrier", "abruptly disconnected clients: at-most-once and no foreign ids (the kernel may discard their unread bytes)"]);
+    total.write(out, "scenarios of 1..8 reference clients against AsyncWebsocketApp::new_unlinked_with_config linked to a real App through async_websocket_handler: handler pools of 1 (every other scenario) or 2..8 threads, poll interval none / 1 ms / 10 ms, heartbeat off or (100 ms, 1.5 s); each client runs a random script over {text/binary messages in 1..4 fragments with pings interleaved, several per poll interval, ping, pauses <= 5 ms}, a quarter leave early with Close, with heartbeat a quarter disconnect abruptly; messages marked U trigger a unicast reply from the handler, B a broadcast; every connect handler broadcasts a join notice, an external AsyncSender broadcasts concurrently; half of the fragmented messages are sent fragment by fragment with pauses, a third of the others with every frame cut in two writes (anywhere in header, key or payload) 0.8-3.3 ms apart; seeded delays at the three poll-loop failpoints; ends with shutdown of both apps; plus bulk scenarios: a client requests a 6..16 MiB unicast and does not read for 0.3..1 s (more than the kernel buffers), then must receive it intact followed by a small unicast and a broadcast, which an idle second client must receive too; and busy-heartbeat scenarios: heartbeat 100 ms / timeout 1 s, one client sending a message every millisecond for ~3 s while answering every ping: it must stay connected and all 2400 messages must be dispatched in order. distinct = distinct scenarios; every scenario is non-trivial (all events of all clients are judged)", None, &["order is asserted only with a single handler thread (with more, handler entry order may legitimately differ from dispatch order)", "a broadcast must reach a client exactly once if that client's Connect was logged before the broadcast was submitted and it stayed until the final barrier", "abruptly disconnected clients: at-most-once and no foreign ids (the kernel may discard their unread bytes)"]);
 }
